@@ -1,5 +1,290 @@
-import PsutilModel.Model.C09Gen
-import PsutilModel.Spec.C09
+/-
+  Props/C09.lean — property theorems for C09 (disk/network counters: exact per-device values,
+  totals never double count; disk_usage formulas). Helper lemmas: Proofs/C09.lean, Proofs/C09Disk.lean.
+
+  `netCfg`, `diskCfg`, `usageCfg` and the field-name lists come from Generated/C09.lean, which
+  the translator rewrites from /repo's source on every run. The theorems below are *about the
+  model instantiated with those facts*; a changed column order, branch guard, slice bound,
+  sector size, skip condition, namedtuple field or disk_usage assignment makes them fail to
+  build.
+-/
+import PsutilModel.Proofs.C09Disk
 namespace Psutil.C09
-theorem stub_sector : diskCfg.sector = Spec.sectorSize := by decide
+open Spec
+
+/-- the promised value, as an outcome of the model -/
+def Spec.Expect.toOut : Expect → Out
+  | .none => .none
+  | .emptyDict => .emptyDict
+  | .perdev d => .perdev d
+  | .total t => .total t
+
+/-! ## translator-fed obligations (tables) -/
+
+/-- the sixteen kernel columns land in the eight documented fields: `bytes_sent = tx bytes`,
+    `bytes_recv = rx bytes`, …, `dropout = tx drop` (unpack order and stored order together) -/
+theorem C09_net_column_map (v0 v1 v2 v3 v4 v5 v6 v7 v8 v9 v10 v11 v12 v13 v14 v15 : Nat) :
+    lookups (netCfg.unpack.zip [v0, v1, v2, v3, v4, v5, v6, v7, v8, v9, v10, v11, v12, v13, v14, v15])
+      netCfg.output = some [v8, v0, v9, v1, v2, v10, v3, v11] := by rfl
+
+/-- two header lines are skipped, the name ends at the LAST colon, sixteen values are unpacked -/
+theorem C09_net_cfg : netCfg.skip = 2 ∧ netCfg.rfind = true ∧ netCfg.unpack.length = 16 := by decide
+
+/-- the namedtuples carry the documented field names in the documented order -/
+theorem C09_field_names :
+    Gen.C09.snetioFields = netFieldNames ∧ Gen.C09.sdiskioFields = diskFieldNames ∧
+    Gen.C09.sdiskusageFields = ["total", "used", "free", "percent"] := by decide
+
+/-- sectors are converted at 512 bytes; `is_storage_device` probes `/sys/block/<name, / → !>` -/
+theorem C09_disk_constants :
+    diskCfg.sector = sectorSize ∧ Gen.C09.storageReplace = (47, 33) ∧
+    Gen.C09.storagePath = "/sys/block/{}" ∧ diskCfg.skipPartitions = true := by decide
+
+/-- empty raw dict → `{}` per device, `None` for the total, in both front ends -/
+theorem C09_empty_literals :
+    Gen.C09.frontEmpty = ["{}", "None", "{}", "None"] ∧
+    Gen.C09.usagePercentIsRatioTimes100 = true := by decide
+
+/-! ## /proc/net/dev -/
+
+/-- one kernel-rendered interface line parses to the interface's name and its eight
+    documented counters — for every name (it may contain `:`, `/`, digits, blanks inside,
+    bytes ≥ 0x80) and unbounded counters -/
+theorem C09_net_line_roundtrip (i : Iface) (hn : WFName i.name) :
+    netLine netCfg (renderNetLine i) = .ok (i.name, (documented8 i).map (·.2)) := by
+  rw [netLine_render netCfg C09_net_cfg.2.1 C09_net_cfg.2.2 i hn]
+  rfl
+
+theorem netPlatform_gen (h1 h2 : Bytes) (ifs : List Iface) (wf : NetWF h1 h2 ifs) :
+    netPlatform netCfg (renderNetDev h1 h2 ifs) = .ok (ifs.map fun i => (i.name, tuple8 i)) :=
+  netPlatform_render netCfg C09_net_cfg.2.1 C09_net_cfg.2.2 C09_net_cfg.1 tuple8 (fun _ => rfl)
+    h1 h2 ifs wf
+
+/-- **net, all in one**: for every interface table, `psutil.net_io_counters(pernic)` over the
+    kernel-rendered file is exactly what the property promises: per interface the documented
+    fields; system-wide their field-wise sum; `{}` / `None` when nothing is listed -/
+theorem C09_net (h1 h2 : Bytes) (ifs : List Iface) (wf : NetWF h1 h2 ifs) (pernic : Bool) :
+    netIoCounters pernic (renderNetDev h1 h2 ifs) = (expectNet pernic ifs).toOut := by
+  unfold netIoCounters
+  rw [netPlatform_gen h1 h2 ifs wf]
+  cases ifs with
+  | nil => cases pernic <;> rfl
+  | cons i r =>
+    cases pernic with
+    | true =>
+      simp only [frontEnd, List.map_cons, List.isEmpty_cons, Bool.false_eq_true, if_false, if_true]
+      have := perdevTuples_map Gen.C09.snetioFields (i :: r) (·.name) tuple8 (fun _ _ => rfl)
+      simp only [List.map_cons] at this
+      rw [this]
+      rfl
+    | false =>
+      simp only [frontEnd, List.isEmpty_cons, List.map_cons, Bool.false_eq_true, if_false,
+        List.map_map, Function.comp_def]
+      have hs := sumCols_tuple8 i r
+      simp only [List.map_cons] at hs
+      rw [hs]
+      simp only [expectNet, List.isEmpty_cons, Bool.false_eq_true, if_false, Expect.toOut]
+      rw [sumFields_documented8]
+      rfl
+
+/-- per interface: exactly the kernel's counters under the documented names -/
+theorem C09_net_roundtrip (h1 h2 : Bytes) (ifs : List Iface) (wf : NetWF h1 h2 ifs) (hne : ifs ≠ []) :
+    netIoCounters true (renderNetDev h1 h2 ifs) = .perdev (ifs.map fun i => (i.name, documented8 i)) := by
+  rw [C09_net h1 h2 ifs wf true]
+  cases ifs with
+  | nil => exact absurd rfl hne
+  | cons i r => rfl
+
+/-- system-wide: the field-wise sum over all interfaces -/
+theorem C09_net_total_is_sum (h1 h2 : Bytes) (ifs : List Iface) (wf : NetWF h1 h2 ifs) (hne : ifs ≠ []) :
+    netIoCounters false (renderNetDev h1 h2 ifs)
+      = .total (netFieldNames.map fun f => (f, (ifs.map fun i => ((documented8 i).lookup f).getD 0).sum)) := by
+  rw [C09_net h1 h2 ifs wf false]
+  cases ifs with
+  | nil => exact absurd rfl hne
+  | cons i r => simp [expectNet, Expect.toOut, sumFields, List.map_map, Function.comp_def]
+
+/-! ## /proc/diskstats -/
+
+/-- 14 fields (2.6 … 4.17): field i of the kernel line lands in the documented field, sectors × 512 -/
+theorem C09_disk_roundtrip_14 (maj min : Nat) (name : Bytes) (p : Bool) (s : Io11) (hn : WFDisk name) :
+    diskLine diskCfg (renderDiskLine ⟨maj, min, name, p, .full s []⟩)
+      = .ok (name, [s.reads, s.writes, s.sectorsRead * 512, s.sectorsWritten * 512, s.msReading,
+                    s.msWriting, s.readsMerged, s.writesMerged, s.msIo]) :=
+  diskLine_render ⟨maj, min, name, p, .full s []⟩ hn (Or.inl rfl)
+
+/-- 18 fields (4.18+: four discard counters appended) -/
+theorem C09_disk_roundtrip_18 (maj min : Nat) (name : Bytes) (p : Bool) (s : Io11)
+    (d0 d1 d2 d3 : Nat) (hn : WFDisk name) :
+    diskLine diskCfg (renderDiskLine ⟨maj, min, name, p, .full s [d0, d1, d2, d3]⟩)
+      = .ok (name, [s.reads, s.writes, s.sectorsRead * 512, s.sectorsWritten * 512, s.msReading,
+                    s.msWriting, s.readsMerged, s.writesMerged, s.msIo]) :=
+  diskLine_render ⟨maj, min, name, p, .full s [d0, d1, d2, d3]⟩ hn (Or.inr (by simp))
+
+/-- 20 fields (5.5+: two flush counters appended) -/
+theorem C09_disk_roundtrip_20 (maj min : Nat) (name : Bytes) (p : Bool) (s : Io11)
+    (d0 d1 d2 d3 f0 f1 : Nat) (hn : WFDisk name) :
+    diskLine diskCfg (renderDiskLine ⟨maj, min, name, p, .full s [d0, d1, d2, d3, f0, f1]⟩)
+      = .ok (name, [s.reads, s.writes, s.sectorsRead * 512, s.sectorsWritten * 512, s.msReading,
+                    s.msWriting, s.readsMerged, s.writesMerged, s.msIo]) :=
+  diskLine_render ⟨maj, min, name, p, .full s [d0, d1, d2, d3, f0, f1]⟩ hn (Or.inr (by simp))
+
+/-- any future extension of the 18-field layout keeps the first fourteen fields' meaning -/
+theorem C09_disk_roundtrip_ge18 (maj min : Nat) (name : Bytes) (p : Bool) (s : Io11)
+    (ext : List Nat) (he : 4 ≤ ext.length) (hn : WFDisk name) :
+    diskLine diskCfg (renderDiskLine ⟨maj, min, name, p, .full s ext⟩)
+      = .ok (name, [s.reads, s.writes, s.sectorsRead * 512, s.sectorsWritten * 512, s.msReading,
+                    s.msWriting, s.readsMerged, s.writesMerged, s.msIo]) :=
+  diskLine_render ⟨maj, min, name, p, .full s ext⟩ hn (Or.inr he)
+
+/-- 7 fields (2.6.0–2.6.24 partition lines): four counters, the other five fields are 0 -/
+theorem C09_disk_roundtrip_7 (maj min : Nat) (name : Bytes) (p : Bool) (r sr w sw : Nat)
+    (hn : WFDisk name) :
+    diskLine diskCfg (renderDiskLine ⟨maj, min, name, p, .part r sr w sw⟩)
+      = .ok (name, [r, w, sr * 512, sw * 512, 0, 0, 0, 0, 0]) :=
+  diskLine_render ⟨maj, min, name, p, .part r sr w sw⟩ hn trivial
+
+/-- 15 fields (psutil's "Linux 2.4" layout, as pinned by its test-suite) -/
+theorem C09_disk_roundtrip_15 (maj min : Nat) (name : Bytes) (p : Bool) (s : Io11) (last : Nat)
+    (hn : WFDisk name) :
+    diskLine diskCfg (renderDiskLine ⟨maj, min, name, p, .old24 s last⟩)
+      = .ok (name, [s.reads, s.writes, s.sectorsRead * 512, s.sectorsWritten * 512, s.msReading,
+                    s.msWriting, s.readsMerged, s.writesMerged, s.msIo]) :=
+  diskLine_render ⟨maj, min, name, p, .old24 s last⟩ hn trivial
+
+/-- every other number of fields (0–6, 8–13, 16, 17) is no layout: ValueError, whatever the
+    fields contain -/
+theorem C09_disk_unknown_layout_ValueError (line : Bytes)
+    (h : layoutKnown (splitP isWsT line).length = false) :
+    diskLine diskCfg line = .err .valueError := by
+  unfold diskLine diskFields
+  rw [branch_unknown _ h]
+
+/-- … and one such line anywhere makes the whole call raise it -/
+theorem C09_disk_unknown_layout_propagates (storage : Bytes → Bool) (perdisk : Bool)
+    (pre : List Dev) (hpre : ∀ d ∈ pre, WFDisk d.name ∧ WFRec d.stat) (line : Bytes) (rest : List Bytes)
+    (h : layoutKnown (splitP isWsT line).length = false) (d : Dict) :
+    diskFold diskCfg storage perdisk d (pre.map renderDiskLine ++ line :: rest) = .err .valueError := by
+  induction pre generalizing d with
+  | nil => simp [diskFold, C09_disk_unknown_layout_ValueError line h]
+  | cons x r ih =>
+    have hx := hpre x (by simp)
+    simp only [List.map_cons, List.cons_append, diskFold, diskLine_render x hx.1 hx.2]
+    split <;> exact ih (fun y hy => hpre y (by simp [hy])) _
+
+/-- **disk, all in one**: for every device table mixing all layouts, with the kernel's
+    `/sys/block`, `psutil.disk_io_counters(perdisk)` is exactly what the property promises:
+    every listed device with its documented fields; system-wide the field-wise sum over the
+    whole disks only; `{}` when nothing is listed, `None` when no whole disk is listed -/
+theorem C09_disk (devs : List Dev) (wf : DiskWF devs) (perdisk : Bool) :
+    diskIoCounters (sysBlock devs) perdisk (renderDiskstats devs) = (expectDisk perdisk devs).toOut := by
+  unfold diskIoCounters
+  rw [diskPlatform_render devs wf perdisk]
+  cases perdisk with
+  | true =>
+    cases devs with
+    | nil => rfl
+    | cons d r =>
+      simp only [frontEnd, if_true, List.map_cons, List.isEmpty_cons, Bool.false_eq_true, if_false]
+      have := perdevTuples_map Gen.C09.sdiskioFields (d :: r) (·.name) (fun d => vals9 d.stat)
+        (fun x _ => by cases x.stat <;> rfl)
+      simp only [List.map_cons] at this
+      rw [this]
+      simp only [expectDisk, if_true, List.isEmpty_cons, Bool.false_eq_true, if_false, Expect.toOut,
+        List.map_cons, zip_vals9]
+  | false =>
+    simp only [Bool.false_eq_true, if_false, expectDisk]
+    cases hw : wholeDisks devs with
+    | nil => rfl
+    | cons d r =>
+      simp only [frontEnd, List.map_cons, List.isEmpty_cons, Bool.false_eq_true, if_false,
+        List.map_map, Function.comp_def, Expect.toOut]
+      have hs := sumCols_vals9 d r
+      simp only [List.map_cons] at hs
+      rw [hs]
+      have hf := sumFields_documented9 (d :: r)
+      simp only [List.map_cons] at hf
+      rw [hf]
+      rfl
+
+/-- per device: every listed device (disk or partition) with exactly its documented fields -/
+theorem C09_disk_roundtrip (devs : List Dev) (wf : DiskWF devs) (hne : devs ≠ []) :
+    diskIoCounters (sysBlock devs) true (renderDiskstats devs)
+      = .perdev (devs.map fun d => (d.name, documented9 d.stat)) := by
+  rw [C09_disk devs wf true]
+  cases devs with
+  | nil => exact absurd rfl hne
+  | cons d r => rfl
+
+/-- system-wide: the field-wise sum over the whole disks only -/
+theorem C09_total_is_sum_of_whole_disks (devs : List Dev) (wf : DiskWF devs)
+    (hne : wholeDisks devs ≠ []) :
+    diskIoCounters (sysBlock devs) false (renderDiskstats devs)
+      = .total (diskFieldNames.map fun f =>
+          (f, ((wholeDisks devs).map fun d => ((documented9 d.stat).lookup f).getD 0).sum)) := by
+  rw [C09_disk devs wf false]
+  cases hw : wholeDisks devs with
+  | nil => exact absurd hw hne
+  | cons d r => simp [expectDisk, hw, Expect.toOut, sumFields, List.map_map, Function.comp_def]
+
+/-- nothing is counted twice: deleting every partition line from the file (and nothing from
+    `/sys/block`) leaves the system-wide total unchanged -/
+theorem C09_partitions_do_not_count (devs : List Dev) (wf : DiskWF devs) (wfw : DiskWF (wholeDisks devs)) :
+    diskIoCounters (sysBlock devs) false (renderDiskstats devs)
+      = diskIoCounters (sysBlock (wholeDisks devs)) false (renderDiskstats (wholeDisks devs)) := by
+  rw [C09_disk devs wf false, C09_disk _ wfw false]
+  have : wholeDisks (wholeDisks devs) = wholeDisks devs := by simp [wholeDisks]
+  simp only [expectDisk, this, Bool.false_eq_true, if_false]
+
+/-- nothing listed → `None` for the total, `{}` per device (both functions; also a file with
+    only partitions gives `None` for the disk total) -/
+theorem C09_empty_convention (h1 h2 : Bytes) (wf : NetWF h1 h2 []) :
+    netIoCounters false (renderNetDev h1 h2 []) = .none ∧
+    netIoCounters true (renderNetDev h1 h2 []) = .emptyDict ∧
+    diskIoCounters [] false [] = .none ∧
+    diskIoCounters [] true [] = .emptyDict ∧
+    netIoCounters false [] = .none ∧ netIoCounters true [] = .emptyDict := by
+  refine ⟨?_, ?_, by rfl, by rfl, by rfl, by rfl⟩
+  · rw [C09_net h1 h2 [] wf false]; rfl
+  · rw [C09_net h1 h2 [] wf true]; rfl
+
+theorem C09_only_partitions_none (devs : List Dev) (wf : DiskWF devs) (h : wholeDisks devs = []) :
+    diskIoCounters (sysBlock devs) false (renderDiskstats devs) = .none := by
+  rw [C09_disk devs wf false]
+  simp [expectDisk, h, Expect.toOut]
+
+/-! ## disk_usage -/
+
+/-- the `os.statvfs` result as the model's environment -/
+def envOf (st : StatVfs) : List (String × Int) :=
+  [("st.f_bsize", st.bsize), ("st.f_frsize", st.frsize), ("st.f_blocks", st.blocks),
+   ("st.f_bfree", st.bfree), ("st.f_bavail", st.bavail), ("st.f_files", st.files),
+   ("st.f_ffree", st.ffree), ("st.f_favail", st.favail), ("st.f_flag", st.flag),
+   ("st.f_namemax", st.namemax)]
+
+/-- `total = blocks·frsize`, `used = total − bfree·frsize`, `free = bavail·frsize`,
+    `percent = round(used / (used + free) · 100, 1)` (0 when `used + free = 0`) -/
+theorem C09_disk_usage (st : StatVfs) :
+    diskUsage usageCfg (envOf st)
+      = some { total := (usage st).total, used := (usage st).used, free := (usage st).free,
+               percentExact := (usage st).percent, roundDigits := 1 } := by
+  rfl
+
+/-! ## the hypotheses are satisfiable -/
+
+example : WFName [101, 116, 104, 48, 58, 49] ∧ WFName [97, 32, 58, 47, 98] := by
+  refine ⟨⟨by decide, ?_, ?_, by decide, by decide⟩, ⟨by decide, ?_, ?_, by decide, by decide⟩⟩ <;>
+    (intro c hc; simp at hc; subst hc; decide)
+
+example : DiskWF [⟨8, 0, [115, 100, 97], false, .full ⟨1, 2, 3, 4, 5, 6, 7, 8, 9, 10, 11⟩ []⟩,
+                  ⟨8, 1, [115, 100, 97, 49], true, .part 1 2 3 4⟩,
+                  ⟨104, 0, [99, 47, 100], false, .old24 ⟨1, 2, 3, 4, 5, 6, 7, 8, 9, 10, 11⟩ 12⟩] := by
+  refine ⟨?_, ?_, by decide, by decide⟩
+  · intro d hd
+    simp at hd
+    rcases hd with rfl | rfl | rfl <;> exact ⟨by decide, by simp [NoP, isWsT, isWs]⟩
+  · intro d hd
+    simp at hd
+    rcases hd with rfl | rfl | rfl <;> simp [WFRec]
+
 end Psutil.C09
